@@ -199,7 +199,8 @@ func c19Gen(r *core.Rng) c19case {
 	case 13:
 		k.Args = append(core.Pick(r, [][]string{{"--json", "--force"}, {"--quiet", "--debug"}, {"--quiet", "--force"}, {"--debug", "--force"}}), someTasks()...)
 	case 14:
-		k.Args = []string{"--fmt", "--debug"}
+		k.Args = core.Pick(r, [][]string{{"--fmt", "--debug"}, {"--spokfile", "@PROJ@/spokfile", "--fmt"}, {"--spokfile", "@PROJ@/spokfile", "--show"},
+			{"--spokfile", "@PROJ@/Spokfile", "--fmt"}, {"--spokfile", "@PROJ@/Spokfile", "--vars"}})
 	default:
 		k.Args = []string{"--show", "--debug"}
 	}
@@ -283,9 +284,21 @@ func c19Judge(c *core.Ctx, k c19case, res *core.ShardResult) (vs []core.Violatio
 		}
 	}
 
+	args := append([]string{}, k.Args...)
+	wrongName := false
+	for i, a := range args {
+		if strings.Contains(a, "@PROJ@") {
+			args[i] = strings.ReplaceAll(a, "@PROJ@", proj)
+			if strings.HasSuffix(a, "/Spokfile") {
+				// a file that is not named spokfile: spok must refuse it and change nothing
+				wrongName = true
+				_ = os.WriteFile(filepath.Join(proj, "Spokfile"), []byte(k.Spokfile), 0o644)
+			}
+		}
+	}
 	before := core.Snap(root)
 	traceFile := filepath.Join(root, "strace.out")
-	inv := core.RunSpok(core.SpokOpts{Bin: c.SpokRace(), Dir: cwd, Home: home, Args: k.Args, Prefix: core.StracePrefix(traceFile)})
+	inv := core.RunSpok(core.SpokOpts{Bin: c.SpokRace(), Dir: cwd, Home: home, Args: args, Prefix: core.StracePrefix(traceFile)})
 	res.Evaluations++
 	events, terr := core.ParseStrace(traceFile, cwd)
 	if terr != nil {
@@ -342,6 +355,12 @@ func c19Judge(c *core.Ctx, k c19case, res *core.ShardResult) (vs []core.Violatio
 				bad("init-appends-gitignore", ".gitignore after --init is %q, want the old content %q followed by the ignore entry", core.Trunc(string(gb), 300), gitIgnoreOld)
 				return
 			}
+		}
+	case wrongName:
+		res.Count("wrongly_named_spokfile", 1)
+		if inv.Exit == 0 {
+			bad("spokfile-must-be-named-spokfile", "--spokfile pointed at a file named Spokfile and spok exited 0")
+			return
 		}
 	case has("--quiet") && has("--debug"):
 		// refused before anything is read
